@@ -27,6 +27,8 @@ namespace cdsverif {
         uint32_t start = 0;                     // which worker starts
         uint32_t rw = 0;                        // random-walk denominator (0 = pre-emption list)
         uint64_t seed = 0;                      // aux seed (in-library randomness, random walk)
+        uint32_t opts = 0;                      // bit 0: SMR scans stay pre-emptible while they collect the hazard pointers
+                                                //        (never generated; set in the replay files of the hazard-copy findings)
     };
 
     struct OpSpec {
